@@ -76,6 +76,8 @@ struct World {
 } W;
 
 int my_world_rank() { return (int)(intptr_t)vs::fiber_local(3) - 1; }
+std::vector<std::string> g_where;
+void where(const std::string &w) { int r = my_world_rank(); if (r >= 0 && r < (int)g_where.size()) g_where[r] = w; }
 
 Comm &comm(MPI_Comm c) {
     if (c <= 0 || (size_t)c >= W.comms.size() || !W.comms[c]) throw std::runtime_error("minimpi: invalid communicator handle " + std::to_string(c));
@@ -173,6 +175,7 @@ void wait_one(MPI_Request *req) {
         vs::block_until([cp, ep]{ return cp->epoch != ep; });
         q->done = true; *req = MPI_REQUEST_NULL; return;
     }
+    where(std::string(q->is_send ? "Wait(send" : "Wait(recv") + (q->late ? ",late" : ",eager") + " comm=" + std::to_string(q->comm) + " src=" + std::to_string(q->src) + " dst=" + std::to_string(q->dst) + " tag=" + std::to_string(q->tag) + " bytes=" + std::to_string(q->bytes) + (q->matched ? " matched" : " unmatched") + ")");
     if (q->is_send) {
         if (q->late) {
             // rendezvous: completes only when matched; buffer is read now unless the receiver already pulled it
@@ -231,6 +234,7 @@ void collective(MPI_Comm c, const CollSlot &mine, Compute &&compute, MPI_Request
     int me = my_rank(cm);
     cm.slots[me] = mine;
     long long ep = cm.epoch;
+    where("collective on comm " + std::to_string(c) + " (" + std::to_string(cm.arrived + 1) + "/" + std::to_string(cm.members.size()) + " arrived)");
     ST.collectives++;
     bool last = (++cm.arrived == (int)cm.members.size());
     if (last) {
@@ -251,11 +255,12 @@ void collective(MPI_Comm c, const CollSlot &mine, Compute &&compute, MPI_Request
 Config& cfg() { return C; }
 Stats& stats() { return ST; }
 int world_rank() { return my_world_rank(); }
+std::string where_all() { std::string s; for (size_t r = 0; r < g_where.size(); ++r) s += " [rank " + std::to_string(r) + ": " + g_where[r] + "]"; return s; }
 
 void run(int nranks, const std::function<void(int)> &body) {
     init_types();
     W.comms.clear(); W.reqs.clear();
-    W.n = nranks; W.active = true;
+    W.n = nranks; W.active = true; g_where.assign(nranks, "(not in MPI)");
     W.comms.emplace_back(nullptr);                  // handle 0 = MPI_COMM_NULL
     std::vector<int> all(nranks); for (int i = 0; i < nranks; ++i) all[i] = i;
     new_comm(all);                                  // handle 1 = MPI_COMM_WORLD
